@@ -439,6 +439,7 @@ func RunC06(tier string, args []string) int {
 	chk.Assumptions = []string{
 		"reference decoder = encoding/asn1 into pkix.CertificateList (whole document), encoding/pem for the armour",
 		"generated CRLs stay inside the stated shape alphabet; dimensions outside the fully crossed core are crossed with the core one at a time",
+		"short-read exploration: the byte source under the leaf helpers + hash tap (DER and PEM pipelines, bufio sizes 16/128/4096) answers each Read with a chosen length; all plans with <= 2 deviations (1 byte / half) over the first 60 reads plus the all-short plans",
 	}
 	dir := FreshDir("c06")
 	evals, premiseFalse := 0, 0
@@ -531,8 +532,8 @@ func RunC06(tier string, args []string) int {
 			}
 		}
 	}
-	// large lists: 200 and (thorough) 5000 entries are covered through N=30 + sweep; add explicit 300-entry docs
 	os.RemoveAll(dir)
+	shortPlans, shortReads := c06ShortReads(chk, tier)
 	keys := outcomes.Keys()
 	sort.Strings(keys)
 	if len(samples) == 0 {
@@ -548,6 +549,8 @@ func RunC06(tier string, args []string) int {
 		"core_cases":             coreN,
 		"single_dimension_cases": single,
 		"alignment_cases":        sweep,
+		"short_read_plans":       shortPlans,
+		"short_read_positions":   shortReads,
 		"premise_false":          premiseFalse,
 		"outcome_classes":        outcomes.Counts(),
 		"exhaustive":             true,
